@@ -198,7 +198,7 @@ V("c05-tokens-offset", "C05", TX, "            offset += len(content)\n        s
 V("c05-pad-left-shift", "C05", TX, "            self.plain = f\"{character * count}{self.plain}\"\n            _Span = Span\n            self._spans[:] = [\n                _Span(start + count, end + count, style)", "            self.plain = f\"{character * count}{self.plain}\"\n            _Span = Span\n            self._spans[:] = [\n                _Span(start + count - 1, end + count - 1, style)", "R5.2")
 V("c05-append-text-late-length", "C05", TX, "        _Span = Span\n        text_length = self._length\n        if text.style is not None:\n            self._spans.append(_Span(text_length, text_length + len(text), text.style))\n        self._text.append(text.plain)", "        _Span = Span\n        self._length += len(text)\n        text_length = self._length\n        if text.style is not None:\n            self._spans.append(_Span(text_length, text_length + len(text), text.style))\n        self._text.append(text.plain)", "R5.")
 V("c05-stylize-sets-plain", "C05", TX, "        self._spans.append(Span(start, min(length, end), style))\n", "        self._spans.append(Span(start, min(length, end), style))\n        self.plain = self.plain.rstrip()\n", "R5.3")
-V("c05-divide-no-sort", "C05", TX, "            line._spans.sort(key=get_order)\n", "", "R5.4")
+V("c05-divide-no-sort", "C05", TX, "            line_spans.sort(key=get_order)\n", "", "R5.4")
 V("c05-trim-reversed", "C05", TX, "            for span in self._spans\n            if span.start < max_offset\n        ]\n\n    def pad(", "            for span in reversed(self._spans)\n            if span.start < max_offset\n        ]\n\n    def pad(", "R5.4")
 V("c05-init-no-strip", "C05", TX, "        sanitized_text = strip_control_codes(text)\n", "        sanitized_text = text\n", "R5.5")
 V("c05-benign-temp", "C05", TX, "        new_text._length = offset\n        return new_text", "        total = offset\n        new_text._length = total\n        return new_text", None)
@@ -337,7 +337,7 @@ V("c02-divide-skips-start", "C02", TX, "        divide_offsets = [0, *_offsets, 
 V("c02-divide-span-not-rebased", "C02", TX, "                line_span = _Span(span_start - start, span_end - start, span_style)", "                line_span = _Span(span_start, span_end, span_style)", "R2.1")
 V("c02-wrap-offsets-other-string", "C02", TX, "                offsets = divide_line(str(line), width, fold=wrap_overflow == \"fold\")", "                offsets = divide_line(str(line).strip(), width, fold=wrap_overflow == \"fold\")", "R2.2")
 V("c02-wrap-fold-always", "C02", TX, "                offsets = divide_line(str(line), width, fold=wrap_overflow == \"fold\")", "                offsets = divide_line(str(line), width)", "R2.2")
-V("c02-divide-no-sort", "C02", TX, "            line._spans.sort(key=get_order)\n", "", "R2.3")
+V("c02-divide-no-sort", "C02", TX, "            line_spans.sort(key=get_order)\n", "", "R2.3")
 V("c02-offset-in-cells", "C02", WR, "                            start += len(line)\n", "                            start += _cell_len(line)\n", "R2.4")
 V("c02-compare-chars", "C02", WR, "        word_length = _cell_len(word.rstrip())\n", "        word_length = len(word.rstrip())\n", "R2.4")
 V("c02-chop-any-word", "C02", WR, "            if word_length > width:\n                if fold:", "            if word_length:\n                if fold:", "R2.4")
@@ -375,3 +375,15 @@ V("c10-benign-log-listcomp", "C10", CONS, "            for renderable in rendera
   "            new_segments = [s for renderable in renderables for s in render(renderable, render_options)]\n            buffer_extend = self._buffer.extend", None)
 V("c10-benign-stop-nested", "C10", "rich/live.py", "            if not self._started:\n                return\n            self._started = False\n            try:\n                if self.auto_refresh and self._refresh_thread is not None:\n                    self._refresh_thread.stop()\n                # allow it",
   "            started = self._started\n            if not self._started:\n                return\n            self._started = False\n            try:\n                if self.auto_refresh and self._refresh_thread is not None:\n                    self._refresh_thread.stop()\n                # allow it", None)
+
+# ---- D16: Text.divide span order (fixed in daf4e05) -----------------------------------
+_DIV_NEW = "        span_stack = sorted(\n            enumerate(self._spans), key=lambda item: item[1].start, reverse=True\n        )\n"
+V("c05-divide-value-keyed-order", "C05", TX, [
+  (_DIV_NEW, "        order = {span: span_index for span_index, span in enumerate(self._spans)}\n" + _DIV_NEW),
+  ("                    push((span_index, remaining_span))\n", "                    push((span_index, remaining_span))\n                    order[remaining_span] = order[span]\n")], None, "R5.4")
+V("c05-divide-remainder-loses-index", "C05", TX, "                    push((span_index, remaining_span))\n", "                    push((0, remaining_span))\n", "R5.4")
+V("c05-divide-sort-reversed", "C05", TX, "            line_spans.sort(key=get_order)\n", "            line_spans.sort(key=get_order, reverse=True)\n", "R5.4")
+V("c05-divide-sort-by-span", "C05", TX, "        get_order = itemgetter(0)\n", "        get_order = itemgetter(1)\n", "R5.4")
+V("c02-divide-clipped-wrong-index", "C02", TX, "                append_span((span_index, line_span))\n", "                append_span((position, line_span))\n", "R2.3")
+V("c05-benign-divide-lambda-key", "C05", TX, "        get_order = itemgetter(0)\n", "        get_order = lambda pair: pair[0]\n", None)
+V("c05-benign-divide-plain-sort", "C05", TX, "            line_spans.sort(key=get_order)\n", "            line_spans.sort()\n", None)
